@@ -87,6 +87,8 @@ def slow_task(idx: int, each_ms: int) -> int:
 
 def _timed_batches(first_id: int):
     """ batches in which no single task outlasts the timeout but the batch as a whole cannot finish within it """
+    from ..common import import_repo  # pylint: disable=import-outside-toplevel
+    import_repo()
     from antismash.common.subprocessing import parallel_function  # pylint: disable=import-outside-toplevel
     events, by_id = [], {}
     configs = [(8, 2, 300, 800), (6, 3, 400, 600), (9, 4, 250, 500), (5, 2, 300, 700), (4, 1, 100, 300), (6, 2, 20, 5000)]
@@ -658,6 +660,10 @@ def run(ctx):
     shapes = _shapes(recs)
     if not small_scheds or not chunk_scheds or not shapes:
         raise MachineryError("no cases read from the TLC dumps")
+    # batches that as a whole cannot finish within the timeout (independent of any forced schedule): run first
+    timed_events, timed_by_id = _timed_batches(10 ** 7)
+    ctx.validate("Pool_Trace", timed_events, timed_by_id, min_per_shard=50)
+    ctx.notes["timed_batches"] = len(timed_events)
     cases = _select_cases(ctx, rng, small_scheds, chunk_scheds)
     cases += _sweep_cases(ctx, rng)
     cases += _exec_cases(ctx, rng, small_scheds)
@@ -690,10 +696,6 @@ def run(ctx):
             ctx.nontrivial_case(case["id"])
     ctx.evaluations = len(cases)
     ctx.validate("Pool_Trace", events, by_id)
-    # batches that as a whole cannot finish within the timeout (independent of any forced schedule)
-    timed_events, timed_by_id = _timed_batches(len(cases))
-    ctx.validate("Pool_Trace", timed_events, timed_by_id, min_per_shard=50)
-    ctx.notes["timed_batches"] = len(timed_events)
     ctx.notes["phase_s"]["trace_validation_done"] = ctx.timer.elapsed()
     drift = [f for f in ctx.failures if f["op"] == "drift"]
     broken = [f for f in ctx.failures if f["op"] in ("machinery", "trace")]
@@ -754,6 +756,16 @@ def run(ctx):
 
 def replay(ctx, record):
     data = record["input"]
+    if "each_ms" in data:
+        from ..common import import_repo  # pylint: disable=import-outside-toplevel
+        import_repo()
+        from antismash.common.subprocessing import parallel_function  # pylint: disable=import-outside-toplevel
+        ret = P.result(lambda: parallel_function(slow_task, [[i + 1, data["each_ms"]] for i in range(data["n"])],
+                                                 cpus=data["cpus"], timeout=data["timeout_ms"] / 1000.0), [], _ints)
+        event = dict(data, id=0, op="timed", ret=ret)
+        res = ctx.validate("Pool_Trace", [event], {0: {"op": "timed", "input": data, "observed": ret}})
+        ctx.failures = [f for f in ctx.failures if f["clause"] == record["clause"]]
+        return res
     op = "call" if "c" in data else ("exec" if "codes" in data else "transport")
     event = _strip(OBSERVERS[op](data, ctx.workdir))
     event["id"] = 0
